@@ -574,6 +574,32 @@ func LoadNormalized(repoDir, tier string, overlay map[string][]byte) (*Program, 
 		cur[k] = v
 	}
 	var notes []string
+	for step, planner := range []func(*Program) *renamePlan{(*Program).planUnrename, (*Program).planFuncUnrename, (*Program).planFuncUnrename} {
+		plan := planner(prog)
+		if plan == nil {
+			continue
+		}
+		ov := prog.unrenameOverlay(plan, cur)
+		if len(ov) == 0 {
+			continue
+		}
+		next := map[string][]byte{}
+		for k, v := range cur {
+			next[k] = v
+		}
+		for k, v := range ov {
+			next[k] = v
+		}
+		if np, err := Load(repoDir, tier, next); err == nil {
+			prog, cur = np, next
+			notes = append(notes, plan.notes...)
+		} else {
+			prog.Normalized = append(prog.Normalized, fmt.Sprintf("rename normalisation step %d abandoned: %s", step, firstLine(err.Error())))
+			if os.Getenv("PKOCHECK_DEBUG_NORMALIZE") != "" {
+				fmt.Fprintln(os.Stderr, err)
+			}
+		}
+	}
 	for pass := 0; pass < 3; pass++ {
 		ov, ns := prog.newHelperOverlay(cur)
 		if len(ov) == 0 {
